@@ -1,5 +1,6 @@
 import VerifModel.Base.Proto
 import VerifModel.Model.Data
+import VerifModel.Model.DataState
 /-
   Driver ops for the dataset model (C01–C04, C14, C18).
 
@@ -102,9 +103,35 @@ def runData (cfg inputs reqs : String) : Option String := do
         let head := s!"T={showVec D.times};L={showVec D.leads};X={showVec (D.locs.map (·.id))}"
         some (" | ".intercalate (head :: (splitNE reqs ";").map (runReq D)))
 
+def parseReq? (D : DataS) (s : String) : Option Req :=
+  match s.splitOn "@" with
+  | [fs, i, axis, k] => do
+      some { fields := fs.splitOn "+", input := ← i.toNat?, sel := ← selOf D axis (k.toNat?.getD 0) }
+  | _ => none
+
+/-- a request HISTORY through the stateful model (both caches); stops at the first error -/
+def runHist (cfg inputs reqs : String) : Option String := do
+      let ins ← (splitNE inputs "#").mapM parseInput?
+      let hasClim := (splitNE (if cfg == "-" then "" else cfg) ";").any (· == "clim=1")
+      let (scored, clim) := if hasClim then (ins.dropLast, ins.getLast?) else (ins, none)
+      let c ← parseCfg? cfg clim
+      match Data.init scored c with
+      | .error _ => some "ERR init"
+      | .ok D =>
+        let rs ← (splitNE reqs ";").mapM (parseReq? D)
+        let rec go (s : DState) (rs : List Req) (acc : List String) : List String :=
+          match rs with
+          | [] => acc.reverse
+          | r :: rest =>
+            match D.step s r with
+            | .error _ => ("ERR" :: acc).reverse
+            | .ok (s', cols) => go s' rest (showCols cols :: acc)
+        some (" | ".intercalate (go DState.init rs []))
+
 def handle (args : List String) : Option String :=
   match args with
   | ["data", cfg, inputs, reqs] => runData cfg inputs reqs
+  | ["datahist", cfg, inputs, reqs] => runHist cfg inputs reqs
   -- permutation invariance is a theorem about the model (Proofs/C02.lean)
   | ["dataperm", _, _, _, _] => some "same"
   -- the text-file path must give what the in-memory path gives
